@@ -428,6 +428,15 @@ def check_formula(src, formula_src, opts, res, case, top=True):
         if min(i, j, k) < 0:
             res.fail('c12:delimiters-lost:%s' % case['what'], 'with-delimiters: %r, MTHQ, %r do '
                      'not occur in this order in %r' % (o, c, out), case)
+        elif case.get('inner_delims'):
+            # a math environment inside another formula keeps its own \begin / \end as well
+            o2, c2 = case['inner_delims']
+            i2 = flat.find(''.join(o2.split()), i + 1)
+            k2 = flat.find(''.join(c2.split()), j + 1)
+            if not (0 <= i2 < j < k2 <= k):
+                res.fail('c12:delimiters-lost:nested-%s' % case['what'], 'with-delimiters: the inner '
+                         '%r ... %r do not enclose MTHQ inside the outer formula in %r'
+                         % (o2, c2, out), case)
     if 'CMTQ' in doc:
         present = 'CMTQ' in flat
         if not kc and present and mm != 'verbatim':
@@ -468,6 +477,7 @@ def run_mathenvs(k, tier, res):
                 check_formula(src, fsrc, o, res,
                               {'kind': 'formula', 'src': src, 'fsrc': fsrc, 'opts': o,
                                'what': ('env' if name[0].isalpha() else 'delimited'), 'shape': shape,
+                               'inner_delims': [b, e] if shape == 'nested' else None,
                                'delims': ['\\begin{equation}', '\\end{equation}']
                                if shape == 'nested' else [b, e]})
     res.label('math-environment-sweep')
